@@ -232,6 +232,49 @@ fn into_len(i: Img) -> Result<usize, String> {
         _ => Err("bad-call:IntoData".to_string()),
     }
 }
+/// the payload handed straight back to the constructor with the dimensions and labels the object itself reports (spec action
+/// Rebuild); the flag says whether the rebuilt object holds the same samples bit for bit
+fn rebuild(i: Img) -> Result<(Img, bool), String> {
+    fn fb(a: &[[f32; 3]], b: &[[f32; 3]]) -> bool {
+        a.len() == b.len() && a.iter().zip(b).all(|(p, q)| (0..3).all(|k| p[k].to_bits() == q[k].to_bits()))
+    }
+    let e = |_| "ResolutionMismatch".to_string();
+    match i {
+        Img::Rgb(v) => {
+            let (w, h, t, p) = (v.width(), v.height(), v.transfer(), v.primaries());
+            let snap = v.data().to_vec();
+            let r = Rgb::new(v.into_data(), w, h, t, p).map_err(e)?;
+            let same = fb(&snap, r.data());
+            Ok((Img::Rgb(r), same))
+        }
+        Img::Lin(v) => {
+            let (w, h) = (v.width(), v.height());
+            let snap = v.data().to_vec();
+            let r = LinearRgb::new(v.into_data(), w, h).map_err(e)?;
+            let same = fb(&snap, r.data());
+            Ok((Img::Lin(r), same))
+        }
+        Img::Xyb(v) => {
+            let (w, h) = (v.width(), v.height());
+            let snap = v.data().to_vec();
+            let r = Xyb::new(v.into_data(), w, h).map_err(e)?;
+            let same = fb(&snap, r.data());
+            Ok((Img::Xyb(r), same))
+        }
+        Img::Hsl(v) => {
+            let (w, h) = (v.width(), v.height());
+            let snap = v.data().to_vec();
+            let r = Hsl::new(v.into_data(), w, h).map_err(e)?;
+            let same = fb(&snap, r.data());
+            Ok((Img::Hsl(r), same))
+        }
+        y => {
+            let f = fresh_of(&y)?;
+            let same = maxdiff(&y, &f) == "0";
+            Ok((f, same))
+        }
+    }
+}
 fn construct(call: &str, args: &Value, rng: &mut Rng, grey: bool) -> Result<Img, String> {
     let w = geti(args, "w") as usize;
     let h = geti(args, "h") as usize;
@@ -298,6 +341,17 @@ fn run_behaviour(steps: &[Value], li: usize, sh: &mut Shards, seed: u64) -> u64 
                     }
                     c.map(Some)
                 }
+            },
+            "Rebuild" => match live.take() {
+                None => Err("no-image".to_string()),
+                Some(i) => match catch_unwind(AssertUnwindSafe(|| rebuild(i))) {
+                    Ok(Ok((r, same))) => {
+                        let _ = write!(s, "\"same\":{},", u8::from(same));
+                        Ok(Some(r))
+                    }
+                    Ok(Err(e)) => Err(e),
+                    Err(_) => Err("panic".to_string()),
+                },
             },
             "IntoData" => match live.take() {
                 None => Err("no-image".to_string()),
